@@ -28,7 +28,7 @@ Theorem feet_round_trip g b : wf g = true -> h_unit (g_hdr g) = feet ->
 Proof.
   intros W F T Wr. pose proof (read_write_roundtrip g b W Wr) as RT.
   assert (HC : g_hdr (canon g) = canon_header (g_hdr g)) by (unfold canon; destruct (str_eqb _ _); reflexivity).
-  pose proof W as W'. unfold wf in W'. apply andb_prop in W' as [Hh W'].
+  pose proof W as W'. unfold wf_g, wf_rest in W'. apply andb_prop in W' as [Hh W'].
   assert (U : unit_scale_of (h_unit (g_hdr g)) = Ok feet_scale) by (rewrite F; apply feet_scale_table).
   pose proof (unit_type_preserved _ _ Hh U) as UP.
   repeat split.
